@@ -20,6 +20,9 @@ pub fn cfg_set(pat: &str, small_nodes: bool) -> CfgSet {
             json!({"ty":"B","tv":1,"sz":4,"al":4,"mp":-2,"ms":-2,"buf":-2,"hist":-2,"bor":-2,"ov":-2,"mn":-2,"at":-2}),
             json!({"ty":"A","tv":0,"sz":8,"al":4,"mp":-2,"ms":-2,"buf":-2,"hist":-2,"bor":-2,"ov":-2,"mn":-2,"at":-2}),
             json!({"ty":"A","tv":0,"sz":8,"al":8,"mp":-2,"ms":-2,"buf":-2,"hist":2,"bor":-2,"ov":-2,"mn":-2,"at":-1}),
+            // 6: a FlatBuffers payload WITHOUT a schema file (tv = 2): the creation fails AFTER the static config
+            // was written (UnableToAcquireTypeDefinition) - a naturally failing creation, no shim needed
+            json!({"ty":"FB","tv":2,"sz":8,"al":8,"mp":-2,"ms":-2,"buf":-2,"hist":-2,"bor":-2,"ov":-2,"mn":-2,"at":-2}),
         ],
         "ev" => vec![
             json!({"mnot":2,"mlis":2,"eid":7,"mn":mn,"ce":1,"de":2,"xe":-1,"dl":-1,"at":-2}),
